@@ -50,6 +50,14 @@ Section Render.
       let start := usub1 (sl r) in
       forallb (fun k => line_ok lines r (start + N.of_nat k)) (seq 0 (N.to_nat (el r - start))).
 
+  (* the same function, executable on huge End.Line values: when the loop runs at all and End.Line
+     exceeds the number of lines, some iteration indexes `lines` out of range
+     (RenderProofs.render_ok_fast_eq) *)
+  Definition render_ok_fast (same_file : bool) (lines : list N) (r : range) : bool :=
+    if negb same_file then true
+    else if (usub1 (sl r) <? el r) && (N.of_nat (length lines) <? el r) then false
+    else render_ok same_file lines r.
+
   (* number of source lines the excerpt shows *)
   Definition excerpt_lines (r : range) : N := el r - usub1 (sl r).
 End Render.
